@@ -220,6 +220,7 @@ static long w_sems;            /* sem_open handles not yet closed */
 sem_t *__real_sem_open (const char *name, int oflag, ...);
 sem_t *__wrap_sem_open (const char *name, int oflag, ...) {
 	sem_t *r;
+	if (a_on && take_fail ("sem_open")) { errno = EMFILE; return SEM_FAILED; }
 	if (oflag & O_CREAT) {
 		va_list ap; va_start (ap, oflag);
 		mode_t mode = va_arg (ap, mode_t); unsigned value = va_arg (ap, unsigned);
@@ -244,6 +245,15 @@ int __real_shm_open (const char *name, int oflag, mode_t mode);
 int __wrap_shm_open (const char *name, int oflag, mode_t mode) {
 	if (a_on && take_fail ("shm_open")) { errno = EACCES; return -1; }
 	return __real_shm_open (name, oflag, mode);
+}
+/* fcntl: F_SETFL can be scripted to fail (pp_socket_set_fd_blocking: the error exit of a socket whose descriptor is already open) */
+int __real_fcntl (int fd, int cmd, ...);
+int __wrap_fcntl (int fd, int cmd, ...) {
+	va_list ap; va_start (ap, cmd);
+	long arg = va_arg (ap, long);
+	va_end (ap);
+	if (a_on && cmd == F_SETFL && take_fail ("fcntl")) { errno = EINVAL; return -1; }
+	return __real_fcntl (fd, cmd, arg);
 }
 int __real_socket (int d, int t, int p);
 int __wrap_socket (int d, int t, int p) {
@@ -481,8 +491,10 @@ static char c_list_new (char **av) { int d = ai (av, 1); LIB (); EMPTY (d); put 
 static char list_add (char **av, int pre) { int d = ai (av, 1); long x = ai (av, 2); LIB (); NEED (d, T_LIST);
 	PList *l = pre ? p_list_prepend (S[d].p, PTR (x)) : p_list_append (S[d].p, PTR (x));
 	S[d].p = l;
-	if ((long) p_list_length (l) == S[d].a + 1) { S[d].a++; return 'S'; }
-	return 'D'; }
+	if ((long) p_list_length (l) == S[d].a + 1) { S[d].a++;
+		PList *at = pre ? l : p_list_last (l);
+		return (at != NULL && at->data == PTR (x)) ? 'S' : 'X'; }
+	return (long) p_list_length (l) == S[d].a ? 'D' : 'X'; }
 static char c_list_append (char **av) { return list_add (av, 0); }
 static char c_list_prepend (char **av) { return list_add (av, 1); }
 static char c_list_remove (char **av) { int d = ai (av, 1); long x = ai (av, 2); LIB (); NEED (d, T_LIST);
@@ -497,11 +509,16 @@ static char c_tree_new (char **av) { int d = ai (av, 1), t = ai (av, 2); LIB ();
 static char c_tree_insert (char **av) { int d = ai (av, 1); long k = ai (av, 2); LIB (); NEED (d, T_TREE);
 	PTree *t = S[d].p; int had = p_tree_lookup (t, PTR (k + 1)) != NULL; pint n0 = p_tree_get_nnodes (t);
 	p_tree_insert (t, PTR (k + 1), PTR (k + 1));
-	if (had) return 'S';
-	return p_tree_get_nnodes (t) == n0 + 1 ? 'S' : 'F'; }
+	int found = p_tree_lookup (t, PTR (k + 1)) == PTR (k + 1); pint n1 = p_tree_get_nnodes (t);
+	if (had) return (found && n1 == n0) ? 'S' : 'X';
+	if (found && n1 == n0 + 1) return 'S';
+	return (!found && n1 == n0) ? 'F' : 'X'; }        /* X: the tree says one thing through its count and another through its nodes */
 static char c_tree_remove (char **av) { int d = ai (av, 1); long k = ai (av, 2); LIB (); NEED (d, T_TREE);
-	p_tree_remove (S[d].p, PTR (k + 1)); return 'S'; }
-static char c_tree_clear (char **av) { int d = ai (av, 1); LIB (); NEED (d, T_TREE); p_tree_clear (S[d].p); return 'S'; }
+	int had = p_tree_lookup (S[d].p, PTR (k + 1)) != NULL; pint n0 = p_tree_get_nnodes (S[d].p);
+	pboolean r = p_tree_remove (S[d].p, PTR (k + 1));
+	if (p_tree_lookup (S[d].p, PTR (k + 1)) != NULL || p_tree_get_nnodes (S[d].p) != n0 - (had ? 1 : 0) || (r != FALSE) != had) return 'X';
+	return 'S'; }
+static char c_tree_clear (char **av) { int d = ai (av, 1); LIB (); NEED (d, T_TREE); p_tree_clear (S[d].p); return p_tree_get_nnodes (S[d].p) == 0 ? 'S' : 'X'; }
 static char c_tree_free (char **av) { int d = ai (av, 1); LIB (); NEED (d, T_TREE); p_tree_free (S[d].p); clr (d); return 'S'; }
 
 /* --- hash table (the slot keeps a shadow of the stored pairs: the API cannot list them without allocating) */
@@ -511,8 +528,9 @@ static char c_ht_new (char **av) { int d = ai (av, 1); LIB (); EMPTY (d);
 static char c_ht_insert (char **av) { int d = ai (av, 1); long k = ai (av, 2), v = ai (av, 3); LIB (); NEED (d, T_HT);
 	if (S[d].a >= 64 && sh_find (&S[d], k) < 0) return '-';
 	p_hash_table_insert (S[d].p, PTR (k), PTR (v));
-	if (p_hash_table_lookup (S[d].p, PTR (k)) == (ppointer) -1) return 'F';
 	int i = sh_find (&S[d], k);
+	if (p_hash_table_lookup (S[d].p, PTR (k)) == (ppointer) -1) return i < 0 ? 'F' : 'X';     /* X: a key that was there is gone */
+	if (p_hash_table_lookup (S[d].p, PTR (k)) != PTR (v)) return 'X';
 	if (i < 0) { i = (int) S[d].a++; S[d].sh[i].k = k; }
 	S[d].sh[i].v = v;
 	return 'S'; }
@@ -520,6 +538,8 @@ static char c_ht_remove (char **av) { int d = ai (av, 1); long k = ai (av, 2); L
 	p_hash_table_remove (S[d].p, PTR (k));
 	int i = sh_find (&S[d], k);
 	if (i >= 0) S[d].sh[i] = S[d].sh[--S[d].a];
+	if (p_hash_table_lookup (S[d].p, PTR (k)) != (ppointer) -1) return 'X';
+	for (int j = 0; j < S[d].a; j++) if (p_hash_table_lookup (S[d].p, PTR (S[d].sh[j].k)) != PTR (S[d].sh[j].v)) return 'X';   /* the other pairs are as the mirror has them */
 	return 'S'; }
 static char ht_list (char **av, int what) { int s = ai (av, 1), d = ai (av, 2); long v = ai (av, 3); LIB (); NEED (s, T_HT); EMPTY (d);
 	PList *l = what == 0 ? p_hash_table_keys (S[s].p) : (what == 1 ? p_hash_table_values (S[s].p) : p_hash_table_lookup_by_value (S[s].p, PTR (v), NULL));
@@ -677,6 +697,13 @@ static char c_dir_path (char **av) { int s = ai (av, 1), d = ai (av, 2); LIB ();
 static char c_dir_rewind (char **av) { int d = ai (av, 1); LIB (); NEED (d, T_DIR); p_dir_rewind (S[d].p, NULL); S[d].a = 0; return 'S'; }
 static char c_dirent_free (char **av) { int d = ai (av, 1); LIB (); NEED (d, T_DIRENT); p_dir_entry_free (S[d].p); clr (d); return 'S'; }
 static char c_dir_free (char **av) { int d = ai (av, 1); LIB (); NEED (d, T_DIR); p_dir_free (S[d].p); clr (d); return 'S'; }
+/* p_dir_create below a path that does not exist, p_dir_remove of a directory that does not exist: both only report an error */
+static char c_dir_create_missing (char **av) { int e = ai (av, 1); LIB (); ERRARG (e, -2);
+	char path[512]; snprintf (path, sizeof path, "%s/no-such-dir/sub", scratch);
+	pboolean ok = p_dir_create (path, 0755, e_in (e)); e_out (e); return ok ? 'X' : 'F'; }
+static char c_dir_remove_missing (char **av) { int e = ai (av, 1); LIB (); ERRARG (e, -2);
+	char path[512]; snprintf (path, sizeof path, "%s/no-such-dir", scratch);
+	pboolean ok = p_dir_remove (path, e_in (e)); e_out (e); return ok ? 'X' : 'F'; }
 static char c_file_remove_missing (char **av) { int e = ai (av, 1); LIB (); ERRARG (e, -2);
 	char path[512]; snprintf (path, sizeof path, "%s/no-such-file", scratch);
 	p_file_remove (path, e_in (e)); e_out (e); return 'F'; }
@@ -777,6 +804,20 @@ static char c_sock_udp_echo (char **av) { int s = ai (av, 1), d = ai (av, 2), e 
 	put (d, T_SADDR, from); return 'S'; }
 static char c_sock_close (char **av) { int d = ai (av, 1), e = ai (av, 2); LIB (); NEED (d, T_SOCK); ERRARG (e, d);
 	pboolean ok = p_socket_close (S[d].p, e_in (e)); e_out (e); if (!ok) return 'F'; S[d].b = 3; return 'S'; }
+/* every I/O entry point on a socket that was closed: each must refuse with "not available"; only the first finds the error pointer empty */
+static char c_sock_io_closed (char **av) { int d = ai (av, 1), w = ai (av, 2), e = ai (av, 3); LIB (); NEED (d, T_SOCK); ERRARG (e, d); if (S[d].b != 3 || w < 0 || w > 6) return '-';
+	char buf[8]; int refused = 0;
+	switch (w) {
+	case 0: refused = p_socket_send (S[d].p, "x", 1, e_in (e)) == -1; break;
+	case 1: refused = p_socket_receive (S[d].p, buf, sizeof buf, e_in (e)) == -1; break;
+	case 2: refused = p_socket_shutdown (S[d].p, TRUE, TRUE, e_in (e)) == FALSE; break;
+	case 3: refused = p_socket_set_buffer_size (S[d].p, P_SOCKET_DIRECTION_SND, 4096, e_in (e)) == FALSE; break;
+	case 4: refused = p_socket_listen (S[d].p, e_in (e)) == FALSE; break;
+	case 5: refused = p_socket_io_condition_wait (S[d].p, P_SOCKET_IO_CONDITION_POLLIN, e_in (e)) == FALSE; break;
+	default: refused = p_socket_accept (S[d].p, e_in (e)) == NULL; break;
+	}
+	e_out (e);
+	return refused ? 'F' : 'X'; }
 static char c_sock_free (char **av) { int d = ai (av, 1); LIB (); NEED (d, T_SOCK); p_socket_free (S[d].p); clr (d); return 'S'; }
 static char c_sock_from_fd (char **av) { int d = ai (av, 1), e = ai (av, 2); LIB (); EMPTY (d); ERRARG (e, d);
 	int raw = __real_socket (AF_INET, SOCK_STREAM, 0); if (raw < 0) return '-';
@@ -788,7 +829,7 @@ static char c_sock_from_fd (char **av) { int d = ai (av, 1), e = ai (av, 2); LIB
 #define NAMEARG(n) do { if ((n) < 0 || (n) >= NNAMES) return '-'; } while (0)
 static char c_sem_new (char **av) { int d = ai (av, 1), n = ai (av, 2), mode = ai (av, 3), e = ai (av, 4); LIB (); EMPTY (d); NAMEARG (n); ERRARG (e, d);
 	PSemaphore *r = p_semaphore_new (nm_base[n], 1, mode ? P_SEM_ACCESS_CREATE : P_SEM_ACCESS_OPEN, e_in (e)); e_out (e);
-	if (!r) return 'F'; put (d, T_SEM, r); return 'S'; }
+	if (!r) return 'F'; put (d, T_SEM, r); S[d].c = n; return 'S'; }
 static char c_sem_cycle (char **av) { int d = ai (av, 1), e = ai (av, 2); LIB (); NEED (d, T_SEM); ERRARG (e, d);
 	pboolean ok = p_semaphore_release (S[d].p, e_in (e)); e_out (e); if (!ok) return 'F';
 	ok = p_semaphore_acquire (S[d].p, e_in (e)); e_out (e); return ok ? 'S' : 'F'; }
@@ -797,7 +838,7 @@ static char c_sem_free (char **av) { int d = ai (av, 1); LIB (); NEED (d, T_SEM)
 static psize shm_size (int k) { return k == 0 ? 1024 : (k == 1 ? 3 * 4096 : (k == 2 ? 512 : (k == 3 ? 8 : 0))); }
 static char c_shm_new (char **av) { int d = ai (av, 1), n = ai (av, 2), sz = ai (av, 3), e = ai (av, 4); LIB (); EMPTY (d); NAMEARG (n); ERRARG (e, d);
 	PShm *r = p_shm_new (nm_base[n], shm_size (sz), P_SHM_ACCESS_READWRITE, e_in (e)); e_out (e);
-	if (!r) return 'F'; put (d, T_SHM, r); return 'S'; }
+	if (!r) return 'F'; put (d, T_SHM, r); S[d].c = n; return 'S'; }
 static char c_shm_own (char **av) { int d = ai (av, 1); LIB (); NEED (d, T_SHM); p_shm_take_ownership (S[d].p); return 'S'; }
 static char c_shm_cycle (char **av) { int d = ai (av, 1), e = ai (av, 2); LIB (); NEED (d, T_SHM); ERRARG (e, d);
 	pboolean ok = p_shm_lock (S[d].p, e_in (e)); e_out (e); if (!ok) return 'F';
@@ -806,12 +847,15 @@ static char c_shm_cycle (char **av) { int d = ai (av, 1), e = ai (av, 2); LIB ()
 static char c_shm_free (char **av) { int d = ai (av, 1); LIB (); NEED (d, T_SHM); p_shm_free (S[d].p); clr (d); return 'S'; }
 static char c_shmbuf_new (char **av) { int d = ai (av, 1), n = ai (av, 2), sz = ai (av, 3), e = ai (av, 4); LIB (); EMPTY (d); NAMEARG (n); ERRARG (e, d);
 	PShmBuffer *r = p_shm_buffer_new (nm_base[n], shm_size (sz), e_in (e)); e_out (e);
-	if (!r) return 'F'; put (d, T_SHMBUF, r); return 'S'; }
+	if (!r) return 'F'; put (d, T_SHMBUF, r); S[d].c = n; return 'S'; }
 static char c_shmbuf_rw (char **av) { int d = ai (av, 1), e = ai (av, 2); LIB (); NEED (d, T_SHMBUF); ERRARG (e, d);
 	char b[8] = "abcdefg", r[8];
 	p_shm_buffer_clear (S[d].p);
 	pssize n = p_shm_buffer_write (S[d].p, b, sizeof b, e_in (e)); e_out (e); if (n != (pssize) sizeof b) return 'F';
 	pint m = p_shm_buffer_read (S[d].p, r, sizeof r, e_in (e)); e_out (e); return (m == (pint) sizeof r && !memcmp (b, r, sizeof r)) ? 'S' : 'F'; }
+static char c_shmbuf_fill (char **av) { int d = ai (av, 1), e = ai (av, 2); LIB (); NEED (d, T_SHMBUF); ERRARG (e, d);
+	p_shm_buffer_clear (S[d].p);
+	pssize n = p_shm_buffer_write (S[d].p, (ppointer) "fill!", 5, e_in (e)); e_out (e); return n == 5 ? 'S' : 'F'; }
 static char c_shmbuf_own (char **av) { int d = ai (av, 1); LIB (); NEED (d, T_SHMBUF); p_shm_buffer_take_ownership (S[d].p); return 'S'; }
 static char c_shmbuf_free (char **av) { int d = ai (av, 1); LIB (); NEED (d, T_SHMBUF); p_shm_buffer_free (S[d].p); clr (d); return 'S'; }
 
@@ -865,7 +909,9 @@ static char c_thread_run (char **av) { int d = ai (av, 1), joinable = ai (av, 2)
 	for (int i = 0; i < 4000 && (!__atomic_load_n (&th_done, __ATOMIC_SEQ_CST) || ntasks () > base); i++) usleep (500);
 	put (d, T_THREAD, t);
 	return 'S'; }
-static char c_thread_unref (char **av) { int d = ai (av, 1); LIB (); NEED (d, T_THREAD); p_uthread_unref (S[d].p); clr (d); return 'S'; }
+static char c_thread_unref (char **av) { int d = ai (av, 1); LIB (); NEED (d, T_THREAD);
+	if (d % 2) { p_uthread_ref (S[d].p); p_uthread_unref (S[d].p); }     /* an extra reference taken and dropped: the object goes with the last one only */
+	p_uthread_unref (S[d].p); clr (d); return 'S'; }
 /* TLS slot: a = the value this (main) thread stored, owned by the caller */
 static char c_tls_new (char **av) { int d = ai (av, 1); LIB (); EMPTY (d);
 	PUThreadKey *r = p_uthread_local_new ((PDestroyFunc) p_free); if (!r) return 'F'; put (d, T_TLS, r); return 'S'; }
@@ -909,33 +955,171 @@ static char c_loader_free (char **av) { int d = ai (av, 1); LIB (); NEED (d, T_L
 /* --- anonymous mappings */
 static char c_mmap_new (char **av) { int d = ai (av, 1), sz = ai (av, 2), e = ai (av, 3); LIB (); EMPTY (d); ERRARG (e, d);
 	psize n = (psize) (sz + 1) * 4096; ppointer r = p_mem_mmap (n, e_in (e)); e_out (e);
-	if (!r) return 'F'; put (d, T_MMAP, r); S[d].a = (long) n; return 'S'; }
+	if (!r) return 'F'; put (d, T_MMAP, r); S[d].a = (long) n; memset (r, 0xa5 ^ d, n); return 'S'; }
 static char c_mmap_free (char **av) { int d = ai (av, 1); LIB (); NEED (d, T_MMAP);
 	pboolean ok = p_mem_munmap (S[d].p, (psize) S[d].a, NULL); if (!ok) return 'F'; clr (d); return 'S'; }
 
-static const struct { const char *name; char (*fn) (char **); } CALLS[] = {
+
+/* ------------------------------------------------------------------------------------------
+ * value-level probes (C18: "objects that existed before the call remain valid and unchanged").
+ * After every call line the API-visible content of every slot object is read back (under ASan, with the tracker
+ * and the fault injection switched off, so that getters which allocate are transparent) and folded into a hash;
+ * the hash of a slot that held the same kind of object before the call must be the same afterwards unless the
+ * call is *allowed* to change that argument with the outcome it reported (column `may` of CALLS).
+ */
+static unsigned long long fnv (unsigned long long h, const void *p, size_t n) {
+	const unsigned char *b = p;
+	for (size_t i = 0; i < n; i++) { h ^= b[i]; h *= 1099511628211ULL; }
+	return h;
+}
+#define FNV0 1469598103934665603ULL
+static unsigned long long fnv_l (unsigned long long h, long long v) { return fnv (h, &v, sizeof v); }
+static unsigned long long fnv_s (unsigned long long h, const char *s) { return s ? fnv (fnv_l (h, 1), s, strlen (s) + 1) : fnv_l (h, 0); }
+static unsigned long long tree_h;
+static long tree_visits; static psize tree_last; static int tree_sorted;
+static int incons;                  /* set by content(): the object contradicts itself (node count vs nodes visited, key order, list lengths) */
+static pboolean tree_visit (ppointer k, ppointer v, ppointer d) { tree_h = fnv_l (fnv_l (tree_h, (long long) (psize) k), (long long) (psize) v);
+	if (tree_visits > 0 && (psize) k <= tree_last) tree_sorted = 0;
+	tree_visits++; tree_last = (psize) k; return FALSE; }
+static const char *TYNAME[] = { "none", "str", "list", "strlist", "tree", "ht", "err", "ini", "hash", "dir", "dirent", "saddr", "sock",
+	"sem", "shm", "shmbuf", "mutex", "cond", "rwlock", "rwlockg", "spin", "prof", "thread", "tls", "loader", "mmap" };
+
+static unsigned long long content (int i) {
+	unsigned long long h = fnv_l (FNV0, S[i].t);
+	void *p = S[i].p;
+	switch (S[i].t) {
+	case T_STR: return fnv_s (h, p);
+	case T_LIST: { long n = 0; for (PList *c = p; c; c = c->next) { h = fnv_l (h, (long long) (psize) c->data); n++; }
+		return fnv_l (fnv_l (h, n), (long long) p_list_length (p)); }
+	case T_STRLIST: { for (PList *c = p; c; c = c->next) h = fnv_s (h, c->data); return fnv_l (h, (long long) p_list_length (p)); }
+	case T_TREE: tree_h = fnv_l (h, p_tree_get_nnodes (p)); tree_h = fnv_l (tree_h, p_tree_get_type (p));
+		tree_visits = 0; tree_sorted = 1; p_tree_foreach (p, tree_visit, NULL);
+		if (tree_visits != p_tree_get_nnodes (p) || !tree_sorted) incons = 1;
+		for (long k = 0; k < 12; k++) tree_h = fnv_l (tree_h, (long long) (psize) p_tree_lookup (p, PTR (k)));
+		return tree_h;
+	case T_HT: { PList *ks = p_hash_table_keys (p), *vs = p_hash_table_values (p);
+		for (PList *c = ks; c; c = c->next) h = fnv_l (fnv_l (h, (long long) (psize) c->data), (long long) (psize) p_hash_table_lookup (p, c->data));
+		for (PList *c = vs; c; c = c->next) h = fnv_l (h, (long long) (psize) c->data);
+		h = fnv_l (fnv_l (h, (long long) p_list_length (ks)), (long long) p_list_length (vs));
+		if (p_list_length (ks) != p_list_length (vs)) incons = 1;
+		for (PList *c = ks; c; c = c->next) for (PList *c2 = c->next; c2; c2 = c2->next) if (c->data == c2->data) incons = 1;   /* a key twice */
+		static const long probe[] = { 0, 1, 2, 3, 5, 7, 55, 102, 203 };
+		for (size_t k = 0; k < sizeof probe / sizeof probe[0]; k++) h = fnv_l (h, (long long) (psize) p_hash_table_lookup (p, PTR (probe[k])));
+		p_list_free (ks); p_list_free (vs); return h; }
+	case T_ERR: return fnv_s (fnv_l (fnv_l (h, p_error_get_code (p)), p_error_get_native_code (p)), p_error_get_message (p));
+	case T_INI: { h = fnv_l (h, p_ini_file_is_parsed (p));
+		for (int s = 0; s < 8; s++) for (int k = 0; k < 8; k++) {
+			char sn[16], kn[16]; snprintf (sn, sizeof sn, "s%d", s); snprintf (kn, sizeof kn, "k%d", k);
+			if (!p_ini_file_is_key_exists (p, sn, kn)) continue;
+			pchar *v = p_ini_file_parameter_string (p, sn, kn, "?"); h = fnv_s (fnv_l (fnv_l (h, s), k), v); p_free (v); }
+		PList *secs = p_ini_file_sections (p);
+		for (PList *c = secs; c; c = c->next) { h = fnv_s (h, c->data);
+			PList *keys = p_ini_file_keys (p, c->data);
+			for (PList *q = keys; q; q = q->next) h = fnv_s (h, q->data);
+			p_list_foreach (keys, (PFunc) p_free, NULL); p_list_free (keys); }
+		p_list_foreach (secs, (PFunc) p_free, NULL); p_list_free (secs); return h; }
+	case T_DIR: { pchar *v = p_dir_get_path (p); h = fnv_s (h, v); p_free (v); return h; }
+	case T_DIRENT: { PDirEntry *e = p; return fnv_l (fnv_s (h, e->name), e->type); }
+	case T_SADDR: { pchar *v = p_socket_address_get_address (p); h = fnv_s (h, v); p_free (v);
+		h = fnv_l (fnv_l (h, p_socket_address_get_family (p)), p_socket_address_get_port (p));
+		h = fnv_l (fnv_l (h, (long long) p_socket_address_get_native_size (p)), p_socket_address_is_any (p));
+		return fnv_l (fnv_l (h, p_socket_address_get_flow_info (p)), p_socket_address_get_scope_id (p)); }
+	case T_SOCK: h = fnv_l (fnv_l (h, p_socket_get_fd (p)), p_socket_is_closed (p));
+		h = fnv_l (fnv_l (fnv_l (h, p_socket_get_family (p)), p_socket_get_type (p)), p_socket_get_protocol (p));
+		return fnv_l (fnv_l (h, p_socket_get_listen_backlog (p)), p_socket_get_blocking (p));
+	case T_SHM: h = fnv_l (h, (long long) p_shm_get_size (p));
+		return p_shm_get_address (p) ? fnv (h, p_shm_get_address (p), p_shm_get_size (p)) : h;
+	case T_SHMBUF: return fnv_l (fnv_l (h, (long long) p_shm_buffer_get_used_space (p, NULL)), (long long) p_shm_buffer_get_free_space (p, NULL));
+	case T_MMAP: return fnv (h, p, (size_t) S[i].a);
+	default: return h;      /* opaque objects (locks, semaphores, threads, loaders; hashes: see hash_check; TLS keys: reading one creates the native key) */
+	}
+}
+
+/* the IPC names an object lives under (files of /dev/shm): they may disappear only when a handle of that name is freed, or when a
+ * semaphore of that name is re-created (access mode CREATE) */
+static int name_there (int n, int j) { char p[128]; snprintf (p, sizeof p, "/dev/shm/%s", nm_file[n][j]); return access (p, F_OK) == 0; }
+static unsigned long long names_of (int i) {
+	int n = (int) S[i].c;
+	if (n < 0 || n >= NNAMES) return 0;
+	switch (S[i].t) {
+	case T_SEM: return (unsigned long long) name_there (n, 0);
+	case T_SHM: case T_SHMBUF: return (unsigned long long) (name_there (n, 1) * 2 + name_there (n, 2));
+	default: return 0;
+	}
+}
+static struct { int t; unsigned long long h, nh; } seen[NSLOT];
+static char chg[512];               /* what changed against the rules: call#:slot:type,... */
+static long ncall;
+
+static void probe_reset (void) { memset (seen, 0, sizeof seen); chg[0] = 0; ncall = 0; }
+
+/* `may`: space separated items  <arg index><outcome classes>  ("1SD": the slot named by argument 1 may change when the call
+ * reports S or D), "!shm": shared memory is written, every shm / shm buffer object may change.  Returns 1 when an object
+ * changed although the call was not allowed to change it. */
+static int probe_after (char **av, const char *may, char outcome) {
+	int bad = 0, on = a_on;
+	int allowed[NSLOT] = { 0 }, shm_all = 0, names_any = 0;
+	ncall++;
+	if (!lib_inited) return 0;      /* between p_libsys_shutdown and the next p_libsys_init the getters that allocate cannot be used:
+	                                 * the objects are read back (and compared with their state before the shutdown) after the next init */
+	a_on = 0;
+	for (const char *q = may ? may : ""; *q; ) {
+		while (*q == ' ') q++;
+		if (!strncmp (q, "!shm", 4)) { shm_all = 1; q += 4; continue; }
+		if (!strncmp (q, "!names", 6)) { names_any = 1; q += 6; continue; }
+		if (*q >= '1' && *q <= '6') { int ix = *q - '0'; q++; int ok = 0;
+			while (*q && *q != ' ') { if (*q == outcome) ok = 1; q++; }
+			int sl = av[ix] ? ai (av, ix) : -1;
+			if (ok && OKS (sl)) allowed[sl] = 1; }
+		else if (*q) q++;
+	}
+	for (int i = 0; i < NSLOT; i++) {
+		incons = 0;
+		unsigned long long h = S[i].t == T_NONE ? 0 : content (i);
+		int changed = seen[i].t != T_NONE && seen[i].t == S[i].t && seen[i].h != h && !allowed[i]
+		    && !(shm_all && (S[i].t == T_SHM || S[i].t == T_SHMBUF));
+		unsigned long long nh = S[i].t == T_NONE ? 0 : names_of (i);
+		int gone = seen[i].t != T_NONE && seen[i].t == S[i].t && (seen[i].nh & ~nh) != 0 && !names_any;    /* a name that was there is not there any more */
+		seen[i].nh = nh;
+		if (gone) {
+			size_t L = strlen (chg);
+			if (L + 40 < sizeof chg) snprintf (chg + L, sizeof chg - L, "%s%ld:%d:%s-name", L ? "," : "", ncall, i, TYNAME[S[i].t]);
+			bad = 1;
+		}
+		if (changed || incons) {
+			size_t L = strlen (chg);
+			if (L + 40 < sizeof chg) snprintf (chg + L, sizeof chg - L, "%s%ld:%d:%s%s", L ? "," : "", ncall, i, TYNAME[S[i].t], changed ? "" : "!");
+			bad = 1;
+		}
+		seen[i].t = S[i].t; seen[i].h = h;
+	}
+	a_on = on;
+	return bad;
+}
+
+static const struct { const char *name; char (*fn) (char **); const char *may; } CALLS[] = {
 	{ "lib_init", c_lib_init }, { "lib_shutdown", c_lib_shutdown }, { "cur_thread", c_cur_thread }, { "sysfail", c_sysfail },
-	{ "strdup", c_strdup }, { "strchomp", c_strchomp }, { "strtok", c_strtok }, { "strtod", c_strtod }, { "str_free", c_str_free },
-	{ "list_new", c_list_new }, { "list_append", c_list_append }, { "list_prepend", c_list_prepend }, { "list_remove", c_list_remove },
+	{ "strdup", c_strdup }, { "strchomp", c_strchomp }, { "strtok", c_strtok, "1S" }, { "strtod", c_strtod }, { "str_free", c_str_free },
+	{ "list_new", c_list_new }, { "list_append", c_list_append, "1S" }, { "list_prepend", c_list_prepend, "1S" }, { "list_remove", c_list_remove, "1S" },
 	{ "list_free", c_list_free }, { "strlist_free", c_strlist_free },
-	{ "tree_new", c_tree_new }, { "tree_insert", c_tree_insert }, { "tree_remove", c_tree_remove }, { "tree_clear", c_tree_clear }, { "tree_free", c_tree_free },
-	{ "ht_new", c_ht_new }, { "ht_insert", c_ht_insert }, { "ht_remove", c_ht_remove }, { "ht_keys", c_ht_keys }, { "ht_values", c_ht_values },
+	{ "tree_new", c_tree_new }, { "tree_insert", c_tree_insert, "1S" }, { "tree_remove", c_tree_remove, "1S" }, { "tree_clear", c_tree_clear, "1S" }, { "tree_free", c_tree_free },
+	{ "ht_new", c_ht_new }, { "ht_insert", c_ht_insert, "1S" }, { "ht_remove", c_ht_remove, "1S" }, { "ht_keys", c_ht_keys }, { "ht_values", c_ht_values },
 	{ "ht_lbv", c_ht_lbv }, { "ht_free", c_ht_free },
-	{ "err_new", c_err_new }, { "err_new_literal", c_err_new_literal }, { "err_copy", c_err_copy }, { "err_set_error", c_err_set_error },
-	{ "err_set_message", c_err_set_message }, { "err_clear", c_err_clear }, { "err_free", c_err_free }, { "err_set_p", c_err_set_p },
-	{ "ini_new", c_ini_new }, { "ini_parse", c_ini_parse }, { "ini_sections", c_ini_sections }, { "ini_keys", c_ini_keys }, { "ini_string", c_ini_string },
+	{ "err_new", c_err_new }, { "err_new_literal", c_err_new_literal }, { "err_copy", c_err_copy }, { "err_set_error", c_err_set_error, "1SD" },
+	{ "err_set_message", c_err_set_message, "1SD" }, { "err_clear", c_err_clear, "1S" }, { "err_free", c_err_free }, { "err_set_p", c_err_set_p },
+	{ "ini_new", c_ini_new }, { "ini_parse", c_ini_parse, "1SD" }, { "ini_sections", c_ini_sections }, { "ini_keys", c_ini_keys }, { "ini_string", c_ini_string },
 	{ "ini_int", c_ini_int }, { "ini_double", c_ini_double }, { "ini_bool", c_ini_bool }, { "ini_list", c_ini_list }, { "ini_free", c_ini_free },
 	{ "hash_new", c_hash_new }, { "hash_update", c_hash_update }, { "hash_string", c_hash_string }, { "hash_reset", c_hash_reset }, { "hash_check", c_hash_check }, { "hash_free", c_hash_free },
 	{ "ipc_key", c_ipc_key }, { "ipc_tmpdir", c_ipc_tmpdir },
 	{ "dir_new", c_dir_new }, { "dir_next", c_dir_next }, { "dir_path", c_dir_path }, { "dir_rewind", c_dir_rewind }, { "dirent_free", c_dirent_free },
-	{ "dir_free", c_dir_free }, { "file_remove_missing", c_file_remove_missing },
+	{ "dir_free", c_dir_free }, { "file_remove_missing", c_file_remove_missing }, { "dir_create_missing", c_dir_create_missing }, { "dir_remove_missing", c_dir_remove_missing },
 	{ "sa_new", c_sa_new }, { "sa_any", c_sa_any }, { "sa_loop", c_sa_loop }, { "sa_native", c_sa_native }, { "sa_addr", c_sa_addr }, { "sa_free", c_sa_free },
-	{ "sock_new", c_sock_new }, { "sock_bad", c_sock_bad }, { "sock_listen", c_sock_listen }, { "sock_connect", c_sock_connect },
+	{ "sock_new", c_sock_new }, { "sock_bad", c_sock_bad }, { "sock_listen", c_sock_listen, "1SF" }, { "sock_connect", c_sock_connect },
 	{ "sock_connect_refused", c_sock_connect_refused }, { "sock_connect_timeout", c_sock_connect_timeout }, { "sock_accept", c_sock_accept }, { "sock_local", c_sock_local }, { "sock_remote", c_sock_remote },
-	{ "sock_udp_echo", c_sock_udp_echo }, { "sock_close", c_sock_close }, { "sock_free", c_sock_free }, { "sock_from_fd", c_sock_from_fd },
-	{ "sem_new", c_sem_new }, { "sem_cycle", c_sem_cycle }, { "sem_own", c_sem_own }, { "sem_free", c_sem_free },
-	{ "shm_new", c_shm_new }, { "shm_own", c_shm_own }, { "shm_cycle", c_shm_cycle }, { "shm_free", c_shm_free },
-	{ "shmbuf_new", c_shmbuf_new }, { "shmbuf_rw", c_shmbuf_rw }, { "shmbuf_own", c_shmbuf_own }, { "shmbuf_free", c_shmbuf_free },
+	{ "sock_udp_echo", c_sock_udp_echo }, { "sock_close", c_sock_close, "1SF" }, { "sock_free", c_sock_free }, { "sock_io_closed", c_sock_io_closed }, { "sock_from_fd", c_sock_from_fd },
+	{ "sem_new", c_sem_new, "!names" }, { "sem_cycle", c_sem_cycle }, { "sem_own", c_sem_own }, { "sem_free", c_sem_free, "!names" },
+	{ "shm_new", c_shm_new }, { "shm_own", c_shm_own }, { "shm_cycle", c_shm_cycle, "!shm" }, { "shm_free", c_shm_free, "!names" },
+	{ "shmbuf_new", c_shmbuf_new }, { "shmbuf_rw", c_shmbuf_rw, "!shm" }, { "shmbuf_fill", c_shmbuf_fill, "!shm" }, { "shmbuf_own", c_shmbuf_own }, { "shmbuf_free", c_shmbuf_free, "!names" },
 	{ "mutex_new", c_mutex_new }, { "mutex_free", c_mutex_free }, { "cond_new", c_cond_new }, { "cond_free", c_cond_free },
 	{ "rwlock_new", c_rwlock_new }, { "rwlock_free", c_rwlock_free }, { "rwlockg_new", c_rwlockg_new }, { "rwlockg_free", c_rwlockg_free },
 	{ "spin_new", c_spin_new }, { "spin_free", c_spin_free }, { "prof_new", c_prof_new }, { "prof_free", c_prof_free }, { "lock_cycle", c_lock_cycle },
@@ -966,7 +1150,10 @@ static char do_call (const char *line) {
 				for (char *q = mk; *q; q++) if (*q == ' ' || *q == '\t') *q = ',';
 				pthread_mutex_lock (&amx); tr_add ("[%s]", mk); pthread_mutex_unlock (&amx);
 			}
-			return CALLS[i].fn (av);
+			char r = CALLS[i].fn (av);
+			/* value-level probe of every slot object; a forbidden change turns the outcome class into 'X' */
+			if (probe_after (av, CALLS[i].may, r)) r = 'X';
+			return r;
 		}
 	return '?';
 }
@@ -1045,12 +1232,23 @@ STD (sock_accept_timeout, "sock_new 0 0 9", "sock_listen 0 9", "sock_accept 0 1 
 STD (sock_udp, "sock_new 0 1 9", "sock_listen 0 9", "sock_udp_echo 0 1 9", "sa_free 1", "sock_free 0", "err_free 9")
 STD (sock_from_fd, "sock_from_fd 0 9", "sock_remote 0 1 9", "sa_free 1", "sock_free 0", "err_free 9")
 STD (sock_bad, "sock_bad 9", "err_free 9", "sock_bad x")
+STD (sock_io_closed, "sock_new 0 0 9", "sock_io_closed 0 0 9", "sock_close 0 9", "sock_io_closed 0 0 9", "sock_io_closed 0 1 9", "err_free 9", "sock_io_closed 0 2 9", "err_free 9",
+     "sock_io_closed 0 3 9", "err_free 9", "sock_io_closed 0 4 9", "err_free 9", "sock_io_closed 0 5 9", "err_free 9", "sock_io_closed 0 6 9", "err_free 9", "sock_io_closed 0 1 x", "sock_free 0")
+STD (dir_errors, "dir_create_missing 0", "dir_remove_missing 0", "err_free 0", "dir_remove_missing 0", "err_free 0", "dir_create_missing x")
 STD (sock_syscall_fail, "sysfail socket", "sock_new 0 0 9", "sock_free 0", "err_free 9")
+STD (sock_fcntl_fail, "sysfail fcntl", "sock_new 0 0 9", "sock_free 0", "sock_new 0 1 9", "sock_free 0", "err_free 9")
+STD (sock_fcntl_fail_fromfd, "sysfail fcntl", "sock_from_fd 0 9", "sock_free 0", "sock_from_fd 0 9", "sock_free 0", "err_free 9")
+STD (sock_fcntl_fail_accept, "sock_new 0 0 9", "sock_listen 0 9", "sock_new 1 0 9", "sock_connect 1 0 9", "sysfail fcntl", "sock_accept 0 2 9", "sock_free 2",
+     "sock_new 3 0 9", "sock_connect 3 0 9", "sock_accept 0 2 9", "sock_free 3", "sock_free 2", "sock_free 1", "sock_free 0", "err_free 9")
+STD (sem_open_fail, "sysfail sem_open", "sem_new 0 0 1 9", "sem_free 0", "sem_new 0 0 0 9", "sysfail sem_open", "sem_new 1 0 0 9", "sem_free 1", "sem_free 0", "err_free 9")
+STD (sem_recreate, "sem_new 0 0 0 9", "sem_new 1 0 1 9", "sem_cycle 1 9", "sem_cycle 0 9", "sem_free 1", "sem_new 2 0 1 9", "sem_free 0", "sem_free 2", "err_free 9")
+STD (shm_lock_sem_open_fail, "sysfail sem_open", "shm_new 0 0 0 9", "shm_free 0", "shm_new 0 0 0 9", "shm_cycle 0 9", "sysfail sem_open", "shm_new 1 0 0 9", "shm_free 1",
+     "shm_cycle 0 9", "shm_free 0", "sysfail sem_open", "shmbuf_new 2 1 0 9", "shmbuf_free 2", "err_free 9")
 STD (sem_basic, "sem_new 0 0 1 9", "sem_cycle 0 9", "sem_free 0", "err_free 9")
 STD (sem_two, "sem_new 0 0 0 9", "sem_new 1 0 0 9", "sem_free 1", "sem_free 0", "err_free 9")
 STD (sem_own, "sem_new 0 0 0 9", "sem_new 1 0 0 9", "sem_free 0", "sem_own 1", "sem_free 1", "err_free 9")
 STD (shm_basic, "shm_new 0 0 0 9", "shm_cycle 0 9", "shm_free 0", "err_free 9")
-STD (shm_two_equal, "shm_new 0 0 0 9", "shm_new 1 0 0 9", "shm_free 1", "shm_free 0", "err_free 9")
+STD (shm_two_equal, "shm_new 0 0 0 9", "shm_cycle 0 9", "shm_new 1 0 0 9", "shm_free 1", "shm_free 0", "err_free 9")
 STD (shm_two_smaller, "shm_new 0 0 1 9", "shm_new 1 0 0 9", "shm_free 1", "shm_free 0", "err_free 9")
 STD (shm_two_larger, "shm_new 0 0 0 9", "shm_new 1 0 1 9", "shm_cycle 1 9", "shm_free 0", "shm_own 1", "shm_free 1", "err_free 9")
 STD (shm_mmap_fail, "sysfail mmap", "shm_new 0 0 0 9", "shm_free 0", "err_free 9")
@@ -1058,7 +1256,7 @@ STD (shm_ftruncate_fail, "sysfail ftruncate", "shm_new 0 0 0 9", "shm_free 0", "
 STD (shm_open_fail, "sysfail shm_open", "shm_new 0 0 0 9", "shm_free 0", "err_free 9")
 STD (shm_zero_size, "shm_new 0 0 4 9", "shm_free 0", "err_free 9")
 STD (shmbuf_basic, "shmbuf_new 0 1 0 9", "shmbuf_rw 0 9", "shmbuf_free 0", "err_free 9")
-STD (shmbuf_two, "shmbuf_new 0 1 0 9", "shmbuf_new 1 1 0 9", "shmbuf_rw 1 9", "shmbuf_free 1", "shmbuf_free 0", "err_free 9")
+STD (shmbuf_two, "shmbuf_new 0 1 0 9", "shmbuf_fill 0 9", "shmbuf_new 1 1 0 9", "shmbuf_rw 1 9", "shmbuf_free 1", "shmbuf_free 0", "err_free 9")
 STD (shmbuf_two_diff, "shmbuf_new 0 1 1 9", "shmbuf_new 1 1 0 9", "shmbuf_free 1", "shmbuf_free 0", "err_free 9")
 STD (shmbuf_small, "shm_new 0 1 3 9", "shmbuf_new 1 1 0 9", "shmbuf_free 1", "shm_free 0", "err_free 9")
 STD (locks_all, "mutex_new 0", "cond_new 1", "rwlock_new 2", "spin_new 3", "prof_new 4", "lock_cycle 0", "lock_cycle 1", "lock_cycle 2", "lock_cycle 3",
@@ -1070,6 +1268,7 @@ STD (thread_join, "thread_run 0 1 0 x", "thread_unref 0")
 STD (thread_detached, "thread_run 0 0 0 x", "thread_unref 0")
 STD (thread_tls_body, "tls_new 1", "thread_run 0 1 1 1", "thread_unref 0", "tls_free 1")
 STD (thread_two, "cur_thread", "thread_run 0 1 1 x", "thread_run 1 0 1 x", "thread_unref 1", "thread_unref 0")
+STD (thread_extra_ref, "thread_run 1 1 0 x", "thread_unref 1", "thread_run 3 0 0 x", "thread_unref 3")
 STD (thread_create_fail, "sysfail pthread_create", "thread_run 0 1 0 x", "thread_unref 0")
 STD (tls_main, "tls_new 0", "tls_set 0", "tls_get 0", "tls_set 0", "tls_replace 0", "tls_free 0")
 STD (tls_key_fail, "tls_new 0", "sysfail pthread_key_create", "tls_set 0", "tls_set 0", "tls_free 0")
@@ -1165,12 +1364,13 @@ static const struct { const char *name; void (*fn) (void); } SCENARIOS[] = {
 	E (ipc_key_posix), E (ipc_key_sysv), E (ipc_tmpdir),
 	E (dir_basic), E (dir_entries), E (dir_missing), E (file_missing),
 	E (sa_v4), E (sa_v6), E (sa_bad), E (sa_misc),
-	E (sock_basic), E (sock_tcp_pair), E (sock_refused), E (sock_connect_timeout), E (sock_accept_timeout), E (sock_udp), E (sock_from_fd), E (sock_bad), E (sock_syscall_fail),
+	E (sock_basic), E (sock_tcp_pair), E (sock_refused), E (sock_connect_timeout), E (sock_accept_timeout), E (sock_udp), E (sock_from_fd), E (sock_bad), E (sock_io_closed), E (dir_errors), E (sock_syscall_fail),
+	E (sock_fcntl_fail), E (sock_fcntl_fail_fromfd), E (sock_fcntl_fail_accept), E (sem_open_fail), E (sem_recreate), E (shm_lock_sem_open_fail),
 	E (sem_basic), E (sem_two), E (sem_own),
 	E (shm_basic), E (shm_two_equal), E (shm_two_smaller), E (shm_two_larger), E (shm_mmap_fail), E (shm_ftruncate_fail), E (shm_open_fail), E (shm_zero_size),
 	E (shmbuf_basic), E (shmbuf_two), E (shmbuf_two_diff), E (shmbuf_small),
 	E (locks_all), E (rwlock_general), E (mutex_init_fail), E (cond_init_fail),
-	E (thread_join), E (thread_detached), E (thread_tls_body), E (thread_two), E (thread_create_fail), E (tls_main), E (tls_key_fail), E (cur_thread),
+	E (thread_join), E (thread_detached), E (thread_tls_body), E (thread_two), E (thread_extra_ref), E (thread_create_fail), E (tls_main), E (tls_key_fail), E (cur_thread),
 	E (loader_basic), E (loader_missing), E (loader_dlopen_fail), E (mmap_basic), E (mmap_fail),
 	E (cross_ini_containers), E (cross_dir_hash), E (cross_ipc_socket), E (cross_error_chain), E (cross_everything),
 	E (long_containers), E (long_system), E (long_ipc_threads),
@@ -1191,6 +1391,7 @@ static void seq_begin (long pid) {
 	w_closes = w_badclose = w_keys = 0; w_nmaps = 0; w_sems = 0;
 	a_idx = a_calls = a_badfree = 0; a_nlive = 0; f_mode = 0; trn = 0; if (tr) tr[0] = 0;
 	noutcomes = 0; outcomes[0] = 0; dl_pending = 0;
+	probe_reset ();
 	take_snap (&base_snap);
 	a_on = 1;
 }
@@ -1232,7 +1433,7 @@ static void run_scen_child (int si, const char *mode, long k, const char *mask, 
 	SCENARIOS[si].fn ();
 	a_on = 0;
 	counts (cnt, sizeof cnt, 1);
-	int n = snprintf (line, sizeof line, "=out=%s n=%ld calls=%ld closes=%ld %s trace=", outcomes, a_idx, a_calls, w_closes, cnt);
+	int n = snprintf (line, sizeof line, "=out=%s n=%ld calls=%ld closes=%ld %s chg=[%s] trace=", outcomes, a_idx, a_calls, w_closes, cnt, chg);
 	if (write (wfd, line, (size_t) n) < 0 || write (wfd, tr ? tr : "", trn) < 0 || write (wfd, "\n", 1) < 0) {}
 	names_remove ();
 	_exit (0);
@@ -1333,7 +1534,7 @@ int main (void) {
 			char cnt[512];
 			char r = do_call (copy + 5);
 			counts (cnt, sizeof cnt, 0);
-			if (r == '?') fprintf (out, "bad-op\n"); else fprintf (out, "%c %s\n", r, cnt);
+			if (r == '?') fprintf (out, "bad-op\n"); else if (r == 'X') fprintf (out, "X %s chg=[%s]\n", cnt, chg); else fprintf (out, "%c %s\n", r, cnt);
 		}
 		else if (!strcmp (tok[0], "end") && in_seq) {
 			char cnt[4096];
